@@ -2,6 +2,7 @@ package mon
 
 import (
 	"fmt"
+	"github.com/NVIDIA/KAI-scheduler/pkg/scheduler/api"
 	"math"
 	"os"
 	"regexp"
@@ -55,6 +56,14 @@ type Monitor struct {
 	dupHandler       bool
 	initNode         map[common_info.PodID]string
 	initGroups       map[common_info.PodID][]string
+	// the scenario the reclaim / preempt validators accepted last (this monitor's validator runs after all others)
+	lastScenario *validatedScenario
+}
+
+type validatedScenario struct {
+	victims   map[string]bool // pod UIDs
+	preemptor string
+	activity  int // statement activity counter when it was accepted
 }
 
 type stmtState struct {
@@ -92,6 +101,26 @@ func (plugin) OnSessionOpen(ssn *framework.Session) {
 		AllocateFunc:   func(e *framework.Event) { m.onEvent("allocate-event", e) },
 		DeallocateFunc: func(e *framework.Event) { m.onEvent("deallocate-event", e) },
 	})
+	if m.CheckStatements {
+		// registered last, so it only sees scenarios every validator of the system accepted: the solution the
+		// solver is about to hand back. It never rejects.
+		record := func(sc api.ScenarioInfo) bool {
+			vs := &validatedScenario{victims: map[string]bool{}, activity: m.activity}
+			if p := sc.GetPreemptor(); p != nil {
+				vs.preemptor = p.Namespace + "/" + p.Name
+			}
+			for _, v := range sc.GetVictims() {
+				for _, t := range v.Tasks {
+					vs.victims[string(t.UID)] = true
+				}
+			}
+			m.lastScenario = vs
+			m.Stats["validated_scenarios_recorded"]++
+			return true
+		}
+		ssn.AddReclaimScenarioValidatorFn(record)
+		ssn.AddPreemptScenarioValidatorFn(record)
+	}
 }
 func (plugin) OnSessionClose(ssn *framework.Session) {
 	if Cur != nil {
@@ -817,6 +846,17 @@ func (m *Monitor) checkCommit(st *stmtState) {
 		}
 		if want == "" {
 			m.report13("commit-emits-undone-step", fmt.Sprintf("pod %s has no valid operation in the statement but the commit emitted %q", uid, g))
+		}
+	}
+	// reclaim / preempt: what reaches the cluster is the solution the validators accepted. A pod evicted by this commit
+	// that is not a victim of that solution was evicted for a scenario the solver abandoned.
+	if (m.action == "reclaim" || m.action == "preempt") && m.lastScenario != nil && m.lastScenario.activity >= st.actAtD0 {
+		m.Stats["commits_compared_with_validated_solution"]++
+		for uid, g := range got {
+			if strings.Contains(g, "E") && !m.lastScenario.victims[uid] {
+				m.report13("commit-evicts-outside-validated-solution", fmt.Sprintf("pod %s is evicted by the commit for %s but is not among the %d victims of the solution the validators accepted (emitted %q): an eviction of an abandoned scenario reached the cluster",
+					uid, m.lastScenario.preemptor, len(m.lastScenario.victims), g))
+			}
 		}
 	}
 	if !failedBind {
